@@ -280,6 +280,36 @@ def gen_prec(eu):
     spell("boolOpText", eu.boolop_map, BOOLOPS, BOOLOPS_L, "BoolOpK")
     spell("unaryOpText", eu.unaryop_map, UNOPS, UNOPS_L, "UnaryOpK")
     spell("cmpOpText", eu.cmpop_map, CMPOPS, CMPOPS_L, "CmpOpK")
+    # the same spellings split into words (tokens), so that the model need not split strings
+    L.append("def cmpOpWords : CmpOpK → List String")
+    for op, l in zip(CMPOPS, CMPOPS_L):
+        L.append(f"  | .{l} => [" + ", ".join(lean_str(w) for w in eu.cmpop_map[getattr(ast, op)].split()) + "]")
+    L.append("")
+    L.append("def unaryOpWord : UnaryOpK → String")
+    for op, l in zip(UNOPS, UNOPS_L):
+        L.append(f"  | .{l} => {lean_str(eu.unaryop_map[getattr(ast, op)].strip())}")
+    L.append("")
+    # every piece of text the unparser module can write of its own: all string constants of
+    # expr_unparse.py (docstrings excluded), i.e. separators, brackets, keywords with their blanks
+    src = open(os.path.join(REPO, "oneliner", "expr_unparse.py"), encoding="utf-8").read()
+    tree = ast.parse(src)
+    doc = set()
+    for n in ast.walk(tree):
+        if isinstance(n, ast.Expr) and isinstance(n.value, ast.Constant) and isinstance(n.value.value, str):
+            doc.add(id(n.value))
+    texts = []
+    for n in ast.walk(tree):
+        if isinstance(n, ast.Constant) and isinstance(n.value, str) and id(n) not in doc and n.value not in texts:
+            texts.append(n.value)
+    for m in (eu.operator_map, eu.boolop_map, eu.unaryop_map, eu.cmpop_map):
+        for v in m.values():
+            if v not in texts:
+                texts.append(v)
+    L.append("/-- all string constants of expr_unparse.py (docstrings excluded) and the operator tables -/")
+    L.append("def unparserTexts : List String := [")
+    L.append("  " + ",\n  ".join(lean_str(t) for t in texts))
+    L.append("]")
+    L.append("")
     L.append("end OlVerif")
     return "\n".join(L) + "\n"
 
